@@ -156,3 +156,35 @@ package router
 //@ func ErrorPingHandler.Handle
 //@   requires nonnil(f) && f.data != nil && w != nil && hdr != nil
 //@   callsite state.State.SetEncryptionSession only-source-session [C07]: arg1 == f.SrcIP()
+
+// ---- gossip (C08, C09) -----------------------------------------------------------------------------------
+// The context every hop signs: origin address | origin timestamp | origin signature (the frame's 64 auth bytes).
+//@ func AnnouncePingHandler.signingContext
+//@   requires nonnil(f) && f.data != nil
+//@   ensures binds-origin-signature [C08]: len(result) == 88 && fresh(base(result)) && (f.appendixIndex - f.authIndex == 64 ==> (forall i int :: 0 <= i && i < 64 ==> result[24+i] == f.data[f.authIndex+i]))
+
+// A hop is put on the list only after its record - exactly the bytes before the trailing 64 signature bytes of this
+// layer - verified under the key of the session filed under the router the record names, with this announcement's
+// context; the listed fields are the decoded fields of that very record.
+//@ func AnnouncePingHandler.parseAnnouncePing
+//@   requires nonnil(f) && f.data != nil
+//@   callsite ed25519.VerifyWithOptions key-of-the-named-router [C08]: session != nil && session.id == attached.Router.IP && base(arg0) == base(session.address.PublicKey) && len(arg0) == len(session.address.PublicKey)
+//@   callsite ed25519.VerifyWithOptions record-and-signature-of-this-layer [C08]: base(arg1) == base(apx) && off(arg1) == off(apx) && len(arg1) == len(apx) - 64 && base(arg2) == base(apx) && off(arg2) == off(apx) + len(apx) - 64 && len(arg2) == 64
+//@   callsite m.PublicAddress.VerifySigWithContext context-of-this-announcement [C08]: base(arg3) == base(signingContext) && off(arg3) == off(signingContext) && len(arg3) == 88
+//@   callsite cbor.Unmarshal#2 decodes-the-signed-record [C08]: base(arg0) == base(apx) && off(arg0) == off(apx) && len(arg0) == len(apx) - 64
+//@   callsite append hop-only-after-verification [C08]: sig_ok && len(arg1) == 1 && arg1[0].Router == attached.Router.IP && arg1[0].Delay == attached.Delay && arg1[0].ForwardLabel == attached.ForwardLabel && arg1[0].ReturnLabel == attached.ReturnLabel
+//@   invariant 1 layers: 1 <= i && i <= 100
+//@   ensures message [C13]: result2 == nil ==> result0 != nil
+
+//@ func AnnouncePingHandler.sessionFromAnnouncePingAttachment
+//@   ensures session-of-named-router [C08]: result1 == nil ==> result0.id == a.Router.IP
+
+// An announcement is accepted - its first effect is storing the origin's public info - only if the deliverer is the
+// outermost signer (or, without hop records, the origin itself), and what is stored is filed under the origin.
+// (Contracts for the rest of Handle - the route built from the hop list and the forwarding filter - were written
+// and are valid, but their obligations need 20-30 s each on every back end: the function inlines ten interface
+// calls per forwarded copy. They are not claimed; see /verif/DESIGN.md, C08/C09.)
+//@ func AnnouncePingHandler.Handle
+//@   cutafter state.State.AddPublicRouterInfo
+//@   requires nonnil(f) && f.data != nil && w != nil && hdr != nil
+//@   callsite state.State.AddPublicRouterInfo accepted-only-from-outermost-signer [C08]: (len(hops) == 0 ==> f.src == recvLink.Peer()) && (len(hops) > 0 ==> hops[0].Router == recvLink.Peer()) && arg1 == f.src && msg != nil && arg2 == msg.Info
